@@ -16,7 +16,6 @@ Modelled(S, e) ==
   /\ e.kind = "tx"
   /\ e.tx.c \in {"engine", "ifund", "fpool", "feed"} \cup DOMAIN S.vamm
   /\ e.tx.s \in DOMAIN S.bal
-  /\ ~(e.tx.c = "feed" /\ e.tx.m = "append_multiple_price")
   /\ (e.tx.c = "engine" /\ e.tx.m \in {"open_position", "close_position", "deposit_margin", "withdraw_margin"}
         => e.tx.s \in ConfTraders /\ e.tx.a.vamm \in DOMAIN S.vamm)
   /\ (e.tx.c = "engine" /\ e.tx.m = "liquidate" => e.tx.a.trader \in ConfTraders /\ e.tx.a.vamm \in DOMAIN S.vamm)
